@@ -71,6 +71,9 @@ type c09Opts struct {
 	// net/http reports them: connection refused while the server restarts, reset, a dial timeout, a DNS
 	// hiccup, ...): each is one failed attempt against the retry budget, none ends the stream for good
 	errKinds bool
+	// failStatus: with alwaysFail, every reconnect attempt is answered with this transient HTTP status
+	// instead of a transport error (a server that is restarting or shedding load for good)
+	failStatus int
 }
 
 // c09DialTimeout is a net.Error that reports a timeout.
@@ -360,7 +363,13 @@ func (s *c09Script) roundTrip(req *http.Request, n int) (*http.Response, error) 
 			return s.resp(200, "text/event-stream", io.NopCloser(strings.NewReader(""))), nil
 		}
 		outcome := 0
-		if s.o.alwaysFail {
+		if s.o.alwaysFail && s.o.failStatus != 0 {
+			s.fails++
+			s.maxFails = max(s.maxFails, s.fails)
+			s.connFails++
+			s.maxConnFails = max(s.maxConnFails, s.connFails)
+			return s.resp(s.o.failStatus, "", nil), nil
+		} else if s.o.alwaysFail {
 			outcome = 1
 		} else if s.o.singleCut {
 			outcome = 0
@@ -620,6 +629,9 @@ func TestVerifC09(t *testing.T) {
 		mk("standalone-stream/ids/retries=2", c09Opts{standalone: true, ids: true, maxRetries: 2}),
 		mk("post-stream/ids/12-events/retries=2", c09Opts{ids: true, maxRetries: 2, notes: 12}),
 		mk("post-stream/ids/12-events/retries=2/transport-error-kinds", c09Opts{ids: true, maxRetries: 2, notes: 12, errKinds: true}),
+		mk("post-stream/ids/retries=2/reconnects-always-503", c09Opts{ids: true, maxRetries: 2, alwaysFail: true, failStatus: 503, notes: 12}),
+		mk("post-stream/ids/retries=5/reconnects-always-429", c09Opts{ids: true, maxRetries: 5, alwaysFail: true, failStatus: 429, notes: 12}),
+		mk("standalone-stream/ids/retries=2/reconnects-always-502", c09Opts{standalone: true, ids: true, maxRetries: 2, alwaysFail: true, failStatus: 502}),
 		mk("post-stream/ids/retries=70/reconnects-always-fail", c09Opts{ids: true, maxRetries: 70, alwaysFail: true, notes: 12}),
 	}
 	if !env.Quick() {
